@@ -6,7 +6,9 @@
    - [classify]: xer_check_tag() against the XML tag N of the element BEING DECODED (a tag inside the skipped
      subtree that happens to carry that name is XCT_OPENING / XCT_CLOSING / XCT_BOTH, every other one XCT_UNKNOWN_OP, _CL, _BO);
    - [skip_run]: phase 3 of SEQUENCE/SET/CHOICE_decode_xer - text and comments are passed over, every tag goes
-     through xer_skip_unknown, 0 = advance and go on, 1 = advance and stop, 2 = stop in front of the tag;
+     through xer_skip_unknown, 0 = advance and go on, 1 = advance and stop, 2 = stop in front of the tag (the callers
+     still have that case; xer_skip_unknown itself no longer gives the answer: fix 01 of notes/fixes/I - only the
+     seeded variant does);
    - [ext_run]: phases 1 and 3 of SEQUENCE_decode_xer / SET_decode_xer for a reader that has no (further) known member
      to expect: the whole extensions section up to the closing tag of the element being decoded;
    - [xer_skip_seed]: the name-sensitive variant of seeded/C03-9 (a closing tag named N ends the skip at once).
@@ -85,7 +87,8 @@ Fixpoint ext_run_g (sk : xct -> Z -> Z * Z) (N : Z) (known : Z -> bool) (toks : 
               if r =? 0 then ext_run_g sk N known tl (Ph3 d') (S nk)
               else if r =? 1 then ext_run_g sk N known tl Ph1 (S nk)
               else if r =? 2 then
-                (* phase := 1, the tag is looked at again: XCT_CLOSING ends the element *)
+                (* the callers' `case 2` (never taken with [xer_skip]; the seeded variant takes it):
+                   phase := 1, the tag is looked at again: XCT_CLOSING ends the element *)
                 match c with XClosing => XDone (S nk) | _ => XFailed end
               else XFailed
           | Ph1 =>
@@ -104,9 +107,6 @@ Definition ext_run := ext_run_g xer_skip.
 Definition root_name (t : xtree) : option Z := match t with XEmpty n => Some n | XNode n _ => Some n | XText => None end.
 Definition root_unknown (known : Z -> bool) (t : xtree) : bool :=
   match root_name t with Some n => negb (known n) | None => true end.
-(* an addition written with separate opening and closing tags does not carry the name of the element it is in *)
-Definition root_not_encl (N : Z) (t : xtree) : bool :=
-  match t with XNode n _ => negb (n =? N) | _ => true end.
 
 (* front end of the extracted model: token strings *)
 Definition skip_run_c (N : Z) (toks : list xtok) : Z * Z * nat * nat := skip_run N toks 1 0%nat 0%nat.
